@@ -360,6 +360,9 @@ pub fn common_faults(g: &mut Gen, s: &mut Scenario) {
         s.slow_clone = 1;
         s.slow_view = 1;
     }
+    if s.slow_drop == 0 && g.rng.chance(1, 4) {
+        s.slow_drop = 1;
+    }
     if s.trap.is_none() && g.rng.chance(3, 10) {
         let mut probes = vec![rt_probe::CLAIMED_BEFORE_PUBLISH, rt_probe::CLAIMED_BEFORE_PUBLISH];
         if s.slow_clone > 0 {
